@@ -478,3 +478,203 @@ Proof.
   specialize (Hall n). rewrite <- elem_of_list_In, elem_of_elements in Hall. apply Hall in Hn. by apply bool_decide_eq_true in Hn.
 Qed.
 
+(* ---- the fast reader's scans never raise inside the subset *)
+Lemma fast_pins_ok t0 t1 inst d conns s :
+  forallb (λ c : string * option opd, (bool_decide (c.1 ∈ bb_in d) || bool_decide (c.1 ∈ bb_out d)) &&
+                        match c.2 with None => true | Some o => const_ok o && (is_net o || bool_decide (c.1 ∈ bb_in d)) end) conns = true →
+  ∃ s2, foldl (λ (st : res scan) (c : string * option opd),
+     match st, c.2 with
+     | Ok s, Some o =>
+         let net := fast_pin_opd t0 t1 o in
+         if bool_decide (c.1 ∈ bb_in d) then
+           Ok {| s_adds := s_adds s; s_edges := s_edges s ++ [(net, pin inst c.1)]; s_bbs := s_bbs s |}
+         else if bool_decide (c.1 ∈ bb_out d) then
+           Ok {| s_adds := s_adds s ++ [(Buf, net)]; s_edges := s_edges s ++ [(pin inst c.1, net)]; s_bbs := s_bbs s |}
+         else Raise ValueError
+     | st, _ => st end) (Ok s) conns = Ok s2.
+Proof.
+  revert s. induction conns as [|c conns IH]; intros s H; simpl in *; [eauto|].
+  apply andb_true_iff in H as [Hc H]. apply andb_true_iff in Hc as [Hpin _].
+  destruct c.2 as [o|]; [|by apply IH].
+  apply orb_true_iff in Hpin. repeat case_bool_decide; try (by apply IH). by destruct Hpin.
+Qed.
+
+Lemma fast_inst_ok t0 t1 bbs s it : item_ok bbs it = true → ∃ s', fast_inst t0 t1 bbs s it = Ok s'.
+Proof.
+  destruct it as [ns|ns|ns|t inst ops|l r|bb inst conns]; simpl; eauto.
+  - intros H. repeat (apply andb_true_iff in H as [H ?]).
+    destruct ops as [|o ops]; [done|]. simpl.
+    destruct (if bool_decide (parity_name t ∈ Gen_fastv.fast_parity) then _ else _) as [t' ins']. eauto.
+  - destruct (find_bb_first bbs bb) as [d|]; [|done]. intros H. repeat (apply andb_true_iff in H as [H ?]).
+    match goal with Hf : forallb _ conns = true |- _ => eapply (fast_pins_ok t0 t1 inst d conns) in Hf as [s2 Hs2] end.
+    rewrite Hs2. simpl. eauto.
+Qed.
+
+Lemma fast_scan_ok t0 t1 bbs items s0 : forallb (item_ok bbs) items = true →
+  ∃ s', foldl (λ st it, rbind st (λ s, fast_inst t0 t1 bbs s it)) (Ok s0) items = Ok s'.
+Proof.
+  revert s0. induction items as [|it items IH]; intros s0 H; simpl in *; [eauto|].
+  apply andb_true_iff in H as [Hi H]. destruct (fast_inst_ok t0 t1 bbs s0 it Hi) as [s1 ->]. by apply IH.
+Qed.
+
+Lemma ident_gate_opd t0 t1 s : is_ident s = true → fast_gate_opd t0 t1 (ONet s) = s.
+Proof.
+  intros H. unfold fast_gate_opd. simpl. repeat case_bool_decide; subst; try done; vm_compute in H; discriminate.
+Qed.
+Lemma ident_pin_opd t0 t1 s : is_ident s = true → fast_pin_opd t0 t1 (ONet s) = s.
+Proof.
+  intros H. unfold fast_pin_opd. simpl. repeat case_bool_decide; subst; try done; vm_compute in H; discriminate.
+Qed.
+
+Definition names (s : scan) : list string := snd <$> s_adds s.
+
+(* nets driven by the pins of one instance end up in all_nets *)
+Lemma fast_pins_adds t0 t1 inst d conns (st : res scan) s2 :
+  foldl (λ (st : res scan) (c : string * option opd),
+     match st, c.2 with
+     | Ok s, Some o =>
+         let net := fast_pin_opd t0 t1 o in
+         if bool_decide (c.1 ∈ bb_in d) then
+           Ok {| s_adds := s_adds s; s_edges := s_edges s ++ [(net, pin inst c.1)]; s_bbs := s_bbs s |}
+         else if bool_decide (c.1 ∈ bb_out d) then
+           Ok {| s_adds := s_adds s ++ [(Buf, net)]; s_edges := s_edges s ++ [(pin inst c.1, net)]; s_bbs := s_bbs s |}
+         else Raise ValueError
+     | st, _ => st end) st conns = Ok s2 → bb_in d ∩ bb_out d = ∅ →
+  ∃ s1, st = Ok s1 ∧ (∀ n, n ∈ names s1 → n ∈ names s2) ∧
+    ∀ p n, (p, Some (ONet n)) ∈ conns → p ∈ bb_out d → is_ident n = true → n ∈ names s2.
+Proof.
+  intros H Hdisj. revert st H. induction conns as [|c conns IH]; intros st H; simpl in H.
+  - exists s2. split; [done|]. split; [done|]. intros p n Hin. by apply elem_of_nil in Hin.
+  - apply IH in H as (s1 & H1 & Hmono & Hpins). destruct st as [s| | |]; try (destruct c.2; done).
+    exists s. split; [done|]. destruct c as [p o]. simpl in *. destruct o as [o|].
+    + assert (Hstep : (∀ n, n ∈ names s → n ∈ names s1) ∧
+                      (p ∈ bb_out d → ∀ n, o = ONet n → is_ident n = true → n ∈ names s1)).
+      { repeat case_bool_decide; try done; injection H1 as <-; unfold names; simpl.
+        - split; [done|]. intros Hp. set_solver.
+        - split; [intros n Hn; rewrite fmap_app; apply elem_of_app; by left|].
+          intros _ n -> Hid. replace (fast_pin_opd t0 t1 (ONet n)) with n by (symmetry; by apply ident_pin_opd). rewrite fmap_app. apply elem_of_app. right. simpl. by left. }
+      destruct Hstep as [Hm1 Hp1]. split; [auto|].
+      intros p' n Hin Hp' Hid. apply elem_of_cons in Hin as [[= -> <-]|Hin]; [apply Hmono; by eapply Hp1|by eapply Hpins].
+    + injection H1 as <-. split; [done|]. intros p' n Hin Hp' Hid.
+      apply elem_of_cons in Hin as [Hin|Hin]; [done|by eapply Hpins].
+Qed.
+
+(* nets driven by instances (gates, blackbox output pins) are appended to all_nets *)
+Definition inst_drivers (bbs : list bbdef) (it : item) : list string :=
+  match it with IAssign _ _ => [] | _ => item_drivers bbs it end.
+Lemma fast_inst_adds t0 t1 bbs s it s' : fast_inst t0 t1 bbs s it = Ok s' → item_ok bbs it = true →
+  (∀ n, n ∈ names s → n ∈ names s') ∧ ∀ n, n ∈ inst_drivers bbs it → is_ident n = true → n ∈ names s'.
+Proof.
+  destruct it as [ns|ns|ns|t inst ops|l r|bb inst conns]; simpl;
+    try (intros [= <-] _; split; [done|]; intros n Hn; by apply elem_of_nil in Hn).
+  - destruct ops as [|o ops]; [done|]. simpl.
+    destruct (if bool_decide (parity_name t ∈ Gen_fastv.fast_parity) then _ else _) as [t' ins']. intros [= <-] _.
+    unfold names. simpl. split; [intros n Hn; rewrite fmap_app; apply elem_of_app; by left|].
+    intros n Hn Hid. destruct o as [o|o]; [|by apply elem_of_nil in Hn]. apply elem_of_list_singleton in Hn as ->.
+    rewrite fmap_app. apply elem_of_app. right. simpl. rewrite ident_gate_opd by done. by left.
+  - destruct (find_bb_first bbs bb) as [d|]; [|done]. intros H Hok. apply rbind_ok in H as (s2 & H2 & [= <-]).
+    repeat (apply andb_true_iff in Hok as [Hok ?]).
+    match goal with Hd : bool_decide (bb_in d ∩ bb_out d = ∅) = true |- _ => apply bool_decide_eq_true in Hd; rename Hd into Hdisj end.
+    apply fast_pins_adds in H2 as (s1 & [= <-] & Hmono & Hpins); [|done]. unfold names in *. simpl in *. split.
+    + intros n Hn. apply Hmono. rewrite !fmap_app. apply elem_of_app. by left.
+    + intros n Hn Hid. apply elem_of_list_bind in Hn as ([p o] & Hn & Hc). simpl in Hn.
+      destruct o as [[o|o]|]; try (by apply elem_of_nil in Hn). case_bool_decide; [|by apply elem_of_nil in Hn].
+      apply elem_of_list_singleton in Hn as ->. by eapply Hpins.
+Qed.
+
+Lemma fast_scan_adds t0 t1 bbs items s0 s' :
+  foldl (λ st it, rbind st (λ s, fast_inst t0 t1 bbs s it)) (Ok s0) items = Ok s' → forallb (item_ok bbs) items = true →
+  (∀ n, n ∈ names s0 → n ∈ names s') ∧ ∀ n, n ∈ items ≫= inst_drivers bbs → is_ident n = true → n ∈ names s'.
+Proof.
+  revert s0. induction items as [|it items IH]; intros s0 H Hok; simpl in *.
+  - injection H as <-. split; [done|]. intros n Hn. by apply elem_of_nil in Hn.
+  - apply andb_true_iff in Hok as [Hi Hok].
+    destruct (fast_inst t0 t1 bbs s0 it) as [s1| | |] eqn:E; try (by eapply foldl_rbind_not_ok in H).
+    apply fast_inst_adds in E as [Hm1 Hd1]; [|done]. apply IH in H as [Hm2 Hd2]; [|done]. split; [auto|].
+    intros n Hn Hid. apply elem_of_app in Hn as [Hn|Hn]; auto.
+Qed.
+
+Lemma fast_assign_adds t0 t1 items s :
+  (∀ n, n ∈ names s → n ∈ names (foldl (fast_assign t0 t1) s items)) ∧
+  ∀ l r, IAssign l r ∈ items → l ∈ names (foldl (fast_assign t0 t1) s items).
+Proof.
+  revert s. induction items as [|it items IH]; intros s; simpl.
+  - split; [done|]. intros l r H. by apply elem_of_nil in H.
+  - destruct (IH (fast_assign t0 t1 s it)) as [Hm Ha].
+    assert (Hs : ∀ n, n ∈ names s → n ∈ names (fast_assign t0 t1 s it)).
+    { intros n Hn. destruct it; try done. unfold names. simpl. rewrite fmap_app. apply elem_of_app. by left. }
+    split; [auto|]. intros l r Hin. apply elem_of_cons in Hin as [<-|Hin]; [|by eapply Ha].
+    apply Hm. unfold names. simpl. rewrite fmap_app. apply elem_of_app. right. by left.
+Qed.
+
+(* ---- graph construction keeps every node *)
+Lemma foldl_insert_dom {A} (f : A → string) (h : A → ninfo) (l : list A) (g : circuit) n :
+  n ∈ dom (foldl (λ g p, <[f p := h p]> g) g l) ↔ n ∈ dom g ∨ n ∈ f <$> l.
+Proof.
+  revert g. induction l as [|p l IH]; intros g; simpl.
+  - split; [auto|]. intros [?|H]; [done|]. by apply elem_of_nil in H.
+  - rewrite IH, dom_insert, elem_of_union, elem_of_singleton, elem_of_cons. tauto.
+Qed.
+Lemma grouped_elem (adds : list (gtype * string)) p : p ∈ grouped adds ↔ p ∈ adds.
+Proof.
+  unfold grouped. rewrite elem_of_list_bind. split.
+  - intros (k & Hp & _). by apply elem_of_list_filter in Hp as [_ ?].
+  - intros Hp. exists p.1. split; [by apply elem_of_list_filter|].
+    apply elem_of_remove_dups. by apply elem_of_list_fmap_1.
+Qed.
+Lemma nx_add_edge_dom g e n : n ∈ dom g → n ∈ dom (nx_add_edge g e).
+Proof.
+  intros H. unfold nx_add_edge, add_edge. apply elem_of_dom. rewrite lookup_alter_is_Some. apply elem_of_dom.
+  unfold ensure. repeat case_match; rewrite ?dom_insert; set_solver.
+Qed.
+Lemma foldl_nx_dom edges g n : n ∈ dom g → n ∈ dom (foldl nx_add_edge g edges).
+Proof. revert g. induction edges as [|e edges IH]; intros g H; simpl; [done|]. by apply IH, nx_add_edge_dom. Qed.
+Lemma set_output_ok outs (g : circuit) : (∀ o, o ∈ outs → o ∈ dom g) → ∃ g', set_output_g g outs true = (g', Done).
+Proof.
+  unfold set_output_g. revert g. induction outs as [|o outs IH]; intros g H; simpl; [eauto|].
+  assert (Ho : o ∈ dom g) by (apply H; by left). apply elem_of_dom in Ho as [i Hi]. rewrite Hi.
+  apply IH. intros o' Ho'. rewrite dom_insert. apply elem_of_union_r. apply H. by right.
+Qed.
+
+Lemma decl_outputs_idents a o : o ∈ decl_outputs a → o ∈ idents a.
+Proof.
+  unfold decl_outputs, idents. intros H. apply elem_of_list_bind in H as (it & Ho & Hit).
+  apply elem_of_list_to_set. right. apply elem_of_app. right. apply elem_of_list_bind. exists it. split; [|done].
+  destruct it; try (by apply elem_of_nil in Ho). done.
+Qed.
+
+(* the fast reader never raises inside the documented subset (no ValueError for an unknown blackbox or pin, no KeyError at the
+   output marking) *)
+Theorem fast_sem_succeeds a bbs : in_subset a bbs = true → ∃ C, fast_sem a bbs = Ok C.
+Proof.
+  unfold in_subset. intros H. repeat (apply andb_true_iff in H as [H ?]).
+  rename H into Hitems.
+  match goal with Hx : forallb _ (elements (idents a)) = true |- _ => rename Hx into Hids end.
+  match goal with Hx : bool_decide (list_to_set (decl_outputs a) ⊆ _) = true |- _ => apply bool_decide_eq_true in Hx; rename Hx into Houts end.
+  unfold fast_sem.
+  set (t0 := tie_name (idents a) Gen_fastv.fast_tie0). set (t1 := tie_name (idents a) Gen_fastv.fast_tie1).
+  destruct (fast_scan_ok t0 t1 bbs (a_items a) scan0 Hitems) as [s1 Hs1]. rewrite Hs1. simpl.
+  pose proof (fast_scan_adds _ _ _ _ _ _ Hs1 Hitems) as [_ Hdrv].
+  pose proof (fast_assign_adds t0 t1 (a_items a) s1) as [Hmono Hasg].
+  set (s := foldl (fast_assign t0 t1) s1 (a_items a)) in *.
+  match goal with |- context [set_output_g ?g _ _] => set (g3 := g) end.
+  destruct (set_output_ok (decl_outputs a) g3) as [g4 Hg4]; [|rewrite Hg4; eauto].
+  intros o Ho. subst g3. apply foldl_nx_dom.
+  apply (foldl_insert_dom snd (λ p, mk_node p.1 false ∅)).
+  assert (Hid : is_ident o = true).
+  { rewrite forallb_forall in Hids. specialize (Hids o). rewrite <- elem_of_list_In, elem_of_elements in Hids.
+    apply decl_outputs_idents, Hids in Ho. by apply andb_true_iff in Ho as [? _]. }
+  assert (Hin : o ∈ (list_to_set (decl_outputs a) : gset string)) by by apply elem_of_list_to_set.
+  apply Houts in Hin. apply elem_of_union in Hin as [Hin|Hin]; apply elem_of_list_to_set in Hin.
+  - right. assert (Hn : o ∈ names s).
+    { apply elem_of_list_bind in Hin as (it & Hoit & Hit). destruct it as [ns|ns|ns|t inst ops|l r|bb inst conns].
+      1-3: by apply elem_of_nil in Hoit.
+      - apply Hmono, Hdrv; [|done]. apply elem_of_list_bind. eexists. split; [|exact Hit]. done.
+      - simpl in Hoit. apply elem_of_list_singleton in Hoit as ->. by eapply Hasg.
+      - apply Hmono, Hdrv; [|done]. apply elem_of_list_bind. eexists. split; [|exact Hit]. done. }
+    unfold names in Hn. apply elem_of_list_fmap in Hn as (p & -> & Hp). apply elem_of_list_fmap. exists p. split; [done|].
+    by apply grouped_elem.
+  - left. rewrite !dom_insert. apply elem_of_union_r, elem_of_union_r.
+    apply (foldl_insert_dom (λ n : string, n) (λ _, mk_node Input false ∅)). right. by rewrite list_fmap_id.
+Qed.
+
